@@ -19,6 +19,7 @@ from __future__ import annotations
 import asyncio
 import math
 import random
+import re
 from typing import Any
 
 import anyio
@@ -632,7 +633,8 @@ def run_cases(prop: str, cases: list[dict], res: Result) -> None:
             bad = oracle_c13(b)
             nontrivial = cl["err"] or cl["cwb"]
         if bad:
-            res.violations.append(Violation(case, bad, prop + ":" + bad.split(":")[0][:60]))
+            sig = re.sub(r"\d+|\[[^\]]*\]", "N", bad.split(":")[0])[:60]
+            res.violations.append(Violation(case, bad, prop + ":" + sig))
         d = compare(b.lines, rep)
         if d:
             res.disagreements.append(Disagreement(case, d[1]))
